@@ -812,3 +812,42 @@ def enum_energy_types(tier):
 
 
 SUBS.append(Sub("energy_types", check_energy, enum=enum_energy_types))
+
+
+# ------------------------------------------------------------------------------------------
+# (added by the lead) size coincidences: meshes padded with orphan nodes so that Nn * dof_n == Ne (a flat nodal vector has the size
+# of an element scalar field: finding C16-g, reached by the generated cases in the thorough tier only) or Nn == Ne
+
+
+def enum_size_coincidences(tier):
+    from vlib import gen_mesh as _gm
+
+    tri = [[0.7, 0.0], [-0.35, 0.606218], [-0.5, -0.866025]]
+    sq = [[1.0, 0.0], [0.1, 1.1], [-1.0, 0.2], [-0.1, -0.9]]
+    bases = []
+    for et, verts, h, ext, layers in (("TETRA4", tri, 0.6, [0.0, 0.0, 0.5], 2), ("TETRA4", sq, 0.7, [0.1, 0.0, 0.8], 2),
+                                      ("TETRA4", sq, 0.4, [0.1, 0.0, 1.0], 3),
+                                      ("TETRA10", sq, 1.2, [0.0, 0.0, 0.6], 1), ("TRI3", sq, 0.35, None, 0), ("TRI6", sq, 0.6, None, 0),
+                                      ("PRISM6", sq, 0.5, [0.0, 0.0, 1.0], 4), ("QUAD4", sq, 0.3, None, 0)):
+        bases.append(dict(verts=verts, h=h, elemType=et, organised=et == "QUAD4", extrude=ext, layers=layers, A=None, b=None, perm=None,
+                          orphans=0))
+    k = 0
+    for r in bases:
+        m = _gm.build(r)
+        d3 = r["extrude"] is not None
+        for sim, ncomp, model in (("thermal", 1, dict(k=1.5, c=2.0, thickness=1.0)),
+                                  ("weakforms", 1, dict(dof_n=1, thickness=1.0)), ("weakforms", 2, dict(dof_n=2, thickness=1.0)),
+                                  ("weakforms", 3, dict(dof_n=3, thickness=0.5)),
+                                  ("elastic", 3 if d3 else 2, None), ("phasefield", 3 if d3 else 2, None)):
+            if m.Ne % ncomp or m.Ne // ncomp < m.Nn:
+                continue
+            if model is None and sim == "elastic":
+                model = dict(cls="iso", dim=3 if d3 else 2, planeStress=not d3, thickness=1.0 if d3 else 0.5, E=3.0, v=0.3,
+                             angles=[0.1] * (3 if d3 else 1))
+            if model is None and sim == "phasefield":
+                model = dict(E=5.0, v=0.2, planeStress=False, thickness=0.5, split="Miehe" if not d3 else "Amor", regu="AT2", Gc=1.0, l0=0.3)
+            k += 1
+            yield dict(sim=sim, seed=k, only=None, algo="elliptic", model=model, recipe=dict(r, orphans=m.Ne // ncomp - m.Nn))
+
+
+SUBS.append(Sub("size_coincidences", check_components, enum=enum_size_coincidences))
